@@ -190,6 +190,18 @@ add("C07", "tds-sim", "exploration",
     "Trusted: SciPy's integrator and expm as references; phasor algebra for E'; nonlinearity floor 2*response^2 in the small-signal benchmark; "
     "backward Euler is only required to improve (<= 0.92x) at these step sizes.", "DESIGN.md section 4, C07")
 
+add("C02", "codegen-store", "exploration",
+    "deterministic simulation: the on-disk generated-code store under seeded faults (model edits, stale md5, torn / deleted files, generation crash after k pool tasks in seeded order, restarts in fresh interpreters); loaded code vs independent sympy evaluation of the currently declared strings",
+    "Partial claim: the lifecycle clause (regeneration from an unchanged model is functionally - here byte - identical; code that no longer "
+    "matches the model is never silently used). Each scenario works on a private copy of the store (own HOME) and drives it through fresh "
+    "interpreters: equation edits and their reversal, overwritten md5, files truncated at a seeded byte, deleted __init__/model files, a "
+    "generation that dies after k tasks of an in-process pool with seeded completion order, repeated regenerations. After every start the "
+    "loaded residual functions of four probe models are executed through the model's own name-based binding on seeded values and compared "
+    "with a sympy evaluation by symbol name of the currently declared strings; md5 of loaded code must match the model; regenerated files "
+    "must be byte-identical to a clean generation.",
+    "Not claimed: the for-all-arguments / all-models clause (only seeded points of Shunt, PQ, Line, GENCLS are evaluated). Tampered code "
+    "with a valid md5 is outside the gate by design.", "DESIGN.md section 4, C02")
+
 ENGINES = [
     {"name": "tds-sim", "path": "dst/tdssim.py", "kind_free_text": "real TDS loop under StepTap/SolverTap/TimerTap/StoreTap/ConnTap "
      "seams with seeded plans (events, segments, restarts, solver/disk/clock faults, crash points)", "serves_properties": []},
@@ -197,6 +209,8 @@ ENGINES = [
      "sacrificial worker processes, dense numpy reference; cross-option twins and stale-factor faults on tds-sim", "serves_properties": []},
     {"name": "lifecycle-sim", "path": "dst/props", "kind_free_text": "seeded API histories on one real System (add / setup / alter / set / "
      "reset / power flow / init / export / reload / snapshot) with reference models checked after every operation", "serves_properties": []},
+    {"name": "codegen-store", "path": "dst/props/c02.py", "kind_free_text": "private copies of the generated-code store driven through fresh "
+     "interpreters (dst/c02_child.py) with storage faults and an in-process pool with seeded completion order and crash point", "serves_properties": []},
     {"name": "restart-sim", "path": "dst/props/c14.py", "kind_free_text": "tds-sim plus interruption machinery: resume, dill snapshots in streams/"
      "files, crash injection with restart from durable bytes only, torn snapshots, reference twin", "serves_properties": []},
 ]
